@@ -215,6 +215,54 @@ def scriptOps (s : Disk) : List DOp → List FsOp
   | [] => []
   | op :: rest => fsOps s op ++ scriptOps (s.step op).1 rest
 
+/-! ### ghost: the bytes the snapshot writer RECEIVED
+
+  Independent of the directory model and of `DRdb.data`: a record, computed from
+  the operation list alone, of every byte handed to the snapshot writer since it
+  was created, in order. `crash_snapshot_true` (Props/C08.lean) says that a
+  snapshot file a re-opened store offers holds exactly these bytes. -/
+
+structure SnapRecv where
+  left : Nat
+  size : Nat
+  bytes : Bytes          -- the bytes received so far, in order
+  receiving : Bool       -- the writer is attached and has not yet seen `size` bytes
+deriving Repr, DecidableEq
+
+/-- the ghost state: the replication id (a reset detaches the writer) and the
+    snapshot most recently announced -/
+structure RecvG where
+  runId : String
+  cur : Option SnapRecv
+deriving Repr, DecidableEq
+
+def stopRecv : Option SnapRecv → Option SnapRecv
+  | some x => some { x with receiving := false }
+  | none => none
+
+def recvStep (g : RecvG) : DOp → RecvG
+  | .setRunId id =>
+    if g.runId = "" then ⟨id, stopRecv g.cur⟩
+    else if id = g.runId then g
+    else ⟨id, stopRecv g.cur⟩
+  | .delRunId => if g.runId = "" then g else ⟨"", stopRecv g.cur⟩
+  | .newRdbWriter off size => ⟨g.runId, some ⟨off, size, [], true⟩⟩
+  | .rdbAppend chunk =>
+    match g.cur with
+    | some x =>
+      if x.receiving then
+        ⟨g.runId, some { x with bytes := x.bytes ++ chunk,
+                                receiving := decide ((x.bytes ++ chunk).length ≠ x.size) }⟩
+      else g
+    | none => g
+  | .rdbClose => ⟨g.runId, stopRecv g.cur⟩
+  | _ => g
+
+def recvRun (ops : List DOp) : RecvG := ops.foldl recvStep ⟨"", none⟩
+
+/-- what the snapshot writer received along the script -/
+def received (ops : List DOp) : Option SnapRecv := (recvRun ops).cur
+
 /-! ### process death -/
 
 /-- the last operation torn: an append that wrote only the first `k` bytes -/
